@@ -74,7 +74,21 @@ let verdict id name (args : arg list) impl =
     let spec = obs_of_list (spec_broadcast (ufn_op u) allow_rec spec_fuel_n sinputs) in
     let minputs = List.map (function AArr c -> MC c | AScalar z -> MS (false, z)) args in
     let model = obs_of_content (broadcast_and_apply (ufn_op u) bk model_fuel minputs) in
-    if spec = OBad "fuel" then Printf.sprintf "(%s skip unspecified)" id
+    if bk <> None then begin
+      (* ak.broadcast_arrays is outside the property's statement: correspondence of the model only, no spec verdict *)
+      match impl with
+      | ICrash w -> Printf.sprintf "(%s crash %s (model %s))" id w (string_of_obs model)
+      | _ ->
+        let i = (match impl with
+            | IOk d -> obs_of_dump d
+            | IErr "value" | IErr "runtime" -> OErr
+            | IErr c -> OBad ("impl-exception-" ^ c)
+            | ICrash _ -> OBad "crash") in
+        if model = OBad "fuel" then Printf.sprintf "(%s skip nomodel)" id
+        else if obs_eq i model then Printf.sprintf "(%s agree %s corr-only)" id (match i with OErr -> "err" | _ -> "ok")
+        else Printf.sprintf "(%s modeldiff (impl %s) (spec -) (model %s))" id (string_of_obs i) (string_of_obs model)
+    end
+    else if spec = OBad "fuel" then Printf.sprintf "(%s skip unspecified)" id
     else match impl with
       | ICrash w -> Printf.sprintf "(%s crash %s (spec %s))" id w (string_of_obs spec)
       | _ ->
